@@ -101,16 +101,19 @@ LOCATION = {
 }
 _RATE_HEAD = ("{if(e.get_kind()==Constants::EQ){assert(e.get_size()>=2);expression_trate;expression_tclock;"
               "if(e.get(0).get_kind()==Constants::RATE){clock=e.get(0);rate=e.get(1);}elseif(e.get(1).get_kind()==Constants::RATE)"
-              "{clock=e.get(1);rate=e.get(0);}else{returnfalse;}if(clock.get(0).get_symbol().get_type().is(Constants::HYBRID))"
-              "returnfalse;if(rate.get_kind()!=Constants::CONSTANT)returnfalse;")
+              "{clock=e.get(1);rate=e.get(0);}else{returnfalse;}")
+# the rate of an expression without a symbol (reported by the type checker) restricts nothing: not a placement of the model
+_RATE_NOSYM = "if(clock.get(0).get_symbol()==symbol_t())returnfalse;"
+_RATE_HYB = ("if(clock.get(0).get_symbol().get_type().is(Constants::HYBRID))"
+             "returnfalse;if(rate.get_kind()!=Constants::CONSTANT)returnfalse;")
 _RATE_DBL = "if(rate.get_type().is(Constants::DOUBLE))returnrate.get_double_value()!=0.0&&rate.get_double_value()!=1.0;"
 _RATE_MID = "if(rate.get_value()!=0&&rate.get_value()!=1)returntrue;returnfalse;}"
 _RATE_TAIL = ("if(e.get_kind()==Constants::AND){for(size_ti=0;i<e.get_size();++i){if(isRateDisallowedInSymbolic(e.get(i)))"
               "returntrue;}returnfalse;}returnfalse;}")
-RATE = {
-    _RATE_HEAD + _RATE_MID + _RATE_TAIL: {"rateDoubleHandled": False},
-    _RATE_HEAD + _RATE_DBL + _RATE_MID + _RATE_TAIL: {"rateDoubleHandled": True},
-}
+RATE = {}
+for _g in ("", _RATE_NOSYM):
+    RATE[_RATE_HEAD + _g + _RATE_HYB + _RATE_MID + _RATE_TAIL] = {"rateDoubleHandled": False}
+    RATE[_RATE_HEAD + _g + _RATE_HYB + _RATE_DBL + _RATE_MID + _RATE_TAIL] = {"rateDoubleHandled": True}
 _FRAME_HEAD = "{for(size_ti=0;i<frame.get_size();++i){type_tt=frame.get_symbol(i).get_type();"
 _FRAME_TAIL = "if(t.is_channel()&&!t.is(Constants::BROADCAST))supported_methods.stochastic=false;}}"
 FRAME = {
